@@ -120,9 +120,9 @@ def make_constraint(b: Built, c):
     kw = dict(name=c["name"], optional=c["optional"])
     T = lambda i: b.tasks[i - 1]
     if cls in ("TaskStartAt", "TaskEndAt"):
-        return getattr(ps, cls)(task=T(c["task"]), value=c["value"], **kw)
+        return getattr(ps, cls)(task=T(c["task"]), value=term(b, c["vexpr"]) if "vexpr" in c else c["value"], **kw)
     if cls in ("TaskStartAfter", "TaskEndBefore"):
-        return getattr(ps, cls)(task=T(c["task"]), value=c["value"], kind=c["kind"], **kw)
+        return getattr(ps, cls)(task=T(c["task"]), value=term(b, c["vexpr"]) if "vexpr" in c else c["value"], kind=c["kind"], **kw)
     if cls == "TaskPrecedence":
         before = b.cons[c["before_g"] - 1] if c.get("before_g") else T(c["before"])
         after = b.cons[c["after_g"] - 1] if c.get("after_g") else T(c["after"])
